@@ -13,6 +13,7 @@ import (
 	"fmt"
 	"net/http/httptest"
 	"net/url"
+	"reflect"
 	"sort"
 	"strings"
 	"sync"
@@ -34,8 +35,10 @@ import (
 	"verifsim/uni"
 )
 
-var texts = []string{`{ hello }`, `{ maybe }`, `{ me { id } }`, `{ users { id } }`}
-var firstKey = []string{"hello", "maybe", "me", "users"}
+// query texts; the last four are twins that differ only in whitespace inside a string literal or
+// in the letter case of an alias - texts a careless cache key could confuse
+var texts = []string{`{ hello }`, `{ maybe }`, `{ me { id } }`, `{ users { id } }`,
+	`{ echo(b:"a b") }`, `{ echo(b:"a  b") }`, `{ k: hello }`, `{ K: hello }`}
 
 func hashOf(s string) string {
 	b := sha256.Sum256([]byte(s))
@@ -52,11 +55,13 @@ const (
 	fMalformed
 	fWrongVersion
 	fUnknownHash
+	fNoHash    // extension with a version but no hash, no text
+	fNoVersion // extension with the hash but no version, no text
 	numForms
 )
 
 func (f form) String() string {
-	return [...]string{"text", "text+hash", "text+wrong-hash", "hash-only", "malformed-ext", "wrong-version", "unknown-hash-only"}[f]
+	return [...]string{"text", "text+hash", "text+wrong-hash", "hash-only", "malformed-ext", "wrong-version", "unknown-hash-only", "no-hash", "no-version"}[f]
 }
 
 type op struct {
@@ -117,14 +122,16 @@ func (c *simCache) snapshot() map[string]string {
 	return out
 }
 
-func classify(body string) outcome {
+// expected[i] is the canonical data a fresh server returns for texts[i] (computed per run).
+func classify(body string, expected []string) outcome {
 	j, err := parsers.ParseJSON([]byte(body))
 	if err != nil || j.K != parsers.Obj {
 		return outcome{Kind: "other", Raw: body}
 	}
 	if d := j.Get("data"); d != nil && d.K == parsers.Obj && len(d.Keys) > 0 {
-		for i, k := range firstKey {
-			if d.Keys[0] == k {
+		c := d.Canon()
+		for i, e := range expected {
+			if c == e {
 				return outcome{Kind: "exec", Text: i, Raw: body}
 			}
 		}
@@ -153,8 +160,11 @@ func step(state int, o op, out outcome) (bool, int) {
 			return true, state // eviction is always legal
 		}
 		return out.Kind == "exec" && out.Text == o.Text && state&(1<<o.Text) != 0, state
-	case fUnknownHash:
-		return out.Kind == "notfound", state
+	case fUnknownHash, fNoHash:
+		// no usable hash and no text: nothing can be looked up
+		return out.Kind == "notfound" || out.Kind == "rejected", state
+	case fNoVersion:
+		return out.Kind == "rejected", state
 	}
 	return false, state
 }
@@ -183,6 +193,33 @@ func Run(rc *core.RunCtx) {
 	u := uni.New(w, v, plan)
 	u.Park = false
 	v.SetBlobHook(nil)
+	u.Custom = map[string]func(ctx context.Context, args []reflect.Value) (any, error){
+		"Query.echo": func(ctx context.Context, args []reflect.Value) (any, error) {
+			b := args[1]
+			if b.Kind() == reflect.Ptr {
+				return b.Interface(), nil
+			}
+			p := reflect.New(b.Type())
+			p.Elem().Set(b)
+			return p.Interface(), nil
+		},
+	}
+	// what each text answers on a server without any cache
+	expected := make([]string, len(texts))
+	{
+		plain := handler.New(u.ES)
+		plain.AddTransport(transport.POST{})
+		for i, q := range texts {
+			b, _ := json.Marshal(map[string]any{"query": q})
+			rw := httptest.NewRecorder()
+			hr := httptest.NewRequest("POST", "/query", bytes.NewReader(b))
+			hr.Header.Set("Content-Type", "application/json")
+			plain.ServeHTTP(rw, hr)
+			if j, err := parsers.ParseJSON(rw.Body.Bytes()); err == nil && j.Get("data") != nil {
+				expected[i] = j.Get("data").Canon()
+			}
+		}
+	}
 	srv := handler.New(u.ES)
 	srv.AddTransport(transport.GET{})
 	srv.AddTransport(transport.POST{})
@@ -197,8 +234,8 @@ func Run(rc *core.RunCtx) {
 	} else {
 		srv.Use(extension.AutomaticPersistedQuery{Cache: lru.New[string](1 + t.Choose(3, "lrusize"))})
 	}
-	if t.Bool(1, 2, "qcache") {
-		srv.SetQueryCache(lru.New[*graphqlDoc](2))
+	if t.Bool(2, 3, "qcache") {
+		srv.SetQueryCache(lru.New[*graphqlDoc]([]int{2, 8}[t.Choose(2, "qcache-size")]))
 	}
 	maxN := 10
 	if rc.Tier == "thorough" {
@@ -209,12 +246,21 @@ func Run(rc *core.RunCtx) {
 	if overlapped && n > 12 {
 		n = 12
 	}
+	// one history in four stays within one pair of twin texts
+	twinMode := t.Bool(1, 4, "twin-mode")
+	twinBase := 4 + 2*t.Choose(2, "twin-pair")
 	opsList := make([]op, n)
 	for i := range opsList {
 		o := op{Form: form(t.Choose(int(numForms), "form")), Text: t.Choose(len(texts), "text")}
+		if twinMode {
+			o.Text = twinBase + t.Choose(2, "twin")
+		}
 		o.Hash = o.Text
 		if o.Form == fTextWrongHash {
 			o.Hash = (o.Text + 1 + t.Choose(len(texts)-1, "other")) % len(texts)
+			if twinMode {
+				o.Hash = twinBase + (1 - (o.Text - twinBase)) // the twin's hash
+			}
 		}
 		o.Get = t.Bool(1, 3, "get")
 		// bias hash-only requests towards texts registered earlier in the history, so that
@@ -253,6 +299,12 @@ func Run(rc *core.RunCtx) {
 		case fUnknownHash:
 			query = ""
 			ext = map[string]any{"persistedQuery": map[string]any{"version": 1, "sha256Hash": hashOf("never sent " + texts[o.Text])}}
+		case fNoHash:
+			query = ""
+			ext = map[string]any{"persistedQuery": map[string]any{"version": 1}}
+		case fNoVersion:
+			query = ""
+			ext = map[string]any{"persistedQuery": map[string]any{"sha256Hash": hashOf(texts[o.Text])}}
 		case fMalformed:
 			if o.Text%2 == 0 {
 				ext = map[string]any{"persistedQuery": "not-an-object"}
@@ -286,7 +338,7 @@ func Run(rc *core.RunCtx) {
 				hr.Header.Set("Content-Type", "application/json")
 				srv.ServeHTTP(rw, hr)
 			}
-			results[i] = classify(rw.Body.String())
+			results[i] = classify(rw.Body.String(), expected)
 		}()
 	}
 	isDone := func(i int) bool {
